@@ -193,7 +193,7 @@ func loadFixtures() {
 		}
 	}
 	// identities that share one key share the key object
-	for _, n := range []string{"ca-1-client-a-self", "ca-1-client-a-otherca", "ca-1-client-a-lapsed"} {
+	for _, n := range []string{"ca-1-client-a-self", "ca-1-client-a-otherca", "ca-1-client-a-lapsed", "ca-1-client-a-renamed"} {
 		if pki[n] != nil {
 			pki[n].Key = pki["ca-1-client-a"].Key
 		}
